@@ -64,12 +64,38 @@ VERSION_SENSITIVE = {
     "vs_bytes_and_numbers": "print(b'a\\x00b', 1e309, -1e309 < 0, 1_000, 0x1f, 1j * 1j, 10 ** 30)\n",
 }
 
+# programs for histories (C10): long strings in two quote contexts, a long script with stacked
+# decorators (caches keyed by size), many helper names in one output
+_LONG = 'a fairly long string with \'single\' and "double" quotes, a backslash \\ and a tab\t inside it, well over forty characters'
+_LONG_PLAIN = "a fairly long string without any quote or escape inside it but well over forty characters long"
+HISTORY = {
+    "long_string_plain": "s = %r\nprint(len(s), s[:12])\n" % _LONG,
+    "long_string_nested": "s = 1\nprint(f'{len(%s)}|{s}', [%r][0][:5], {%r: %r}[%r][:3])\n" % (
+        '"' + _LONG_PLAIN + '"', _LONG, _LONG_PLAIN, _LONG, _LONG_PLAIN),
+    "long_string_in_dict_key_and_fstring": "d = {%r: 1}\nprint(f\"{d['%s']}\", f'{len(\"%s\")}')\n" % (
+        _LONG_PLAIN, _LONG_PLAIN, _LONG_PLAIN),
+    "long_decorated": (
+        "def tag(t):\n    def d(fn):\n        def w(*a, **k):\n            return (t, fn(*a, **k))\n        return w\n    return d\n"
+        + "".join("@tag('a%d')\n@tag('b%d')\n@tag('c%d')\ndef f%d(x, y=%d):\n    # padding %s\n    return x * %d + y\n"
+                  % (i, i, i, i, i, "p" * 40, i) for i in range(18))
+        + "print(f0(1), f5(2), f17(3, y=4))\n"),
+    "many_helpers": "".join(
+        "for i%d in range(2):\n    if i%d:\n        break\nelse:\n    pass\na%d, (b%d, *c%d) = 1, (2, 3)\nd%d = {}\nd%d['k'] = 0\nd%d['k'] += 1\n"
+        % ((i,) * 8) for i in range(6)) + "print(i0, a5, c3)\n",
+    # the same long string (both quote kinds, a backslash) in a replacement field: host 3.12+ syntax
+    "long_string_in_field": "print(f\"{len(%r)}\", f'{%r[:4]}')\n" % (_LONG, _LONG),
+}
+
 # parses, but conversion fails half-way (an unsupported statement deep inside), leaving
 # whatever partial state the converter keeps
 REJECTED = {
     "try_after_loops": "import math\nfor a in range(3):\n    if a:\n        break\nwhile a:\n    a -= 1\nclass K:\n    def m(self):\n        try:\n            pass\n        finally:\n            pass\n",
     "with_in_func": "def f():\n    for i in range(2):\n        with open('x') as g:\n            break\n",
     "star_import": "import os\nwhile 0:\n    pass\nfrom math import *\n",
+    # refused while an expression is being rewritten (inside a lambda, inside a comprehension)
+    "starred_comp_target_in_lambda": "f = lambda y: [a for *a, b in y]\nprint(f([(1, 2, 3)]))\n",
+    "attr_comp_target_in_class": "class K:\n    x = 1\n    ys = [x for K.z in [1, 2]]\n",
+    "walrus_while_deep": "def f(q):\n    for a in q:\n        g = lambda: [b for b in q if (lambda: b)()]\n        while (c := a):\n            break\n",
 }
 
 
@@ -86,6 +112,7 @@ def repo_scripts():
 
 def all_programs(with_repo=True):
     p = dict(POOL)
+    p.update(HISTORY)
     if with_repo:
         p.update(repo_scripts())
     return p
